@@ -46,6 +46,11 @@ def main() -> int:
     ids = args.ids or sorted(d for d in os.listdir(SEEDED) if os.path.isdir(os.path.join(SEEDED, d)))
     all_props = ["C02", "C03", "C05", "C06", "C07", "C08", "C09", "C12", "C16", "C18"]
     summary = []
+    import tempfile
+
+    scratch = tempfile.mkdtemp(prefix="seeded-out-")
+    os.environ["VERIF_EVIDENCE_DIR"] = os.path.join(scratch, "evidence")
+    os.environ["VERIF_REPLAY_DIR"] = os.path.join(scratch, "replays")
     repo = REPO
     extra_env = {}
     if args.worktree:
